@@ -78,5 +78,67 @@ func VerifDiskCrashHistory() {
 	}
 	last := vcChooseOp(vcAllOps, 2)
 	sc := vcExecute(cfg, prefix, last, false)
+	vcExcludeKnown(sc)
+	sc.check()
+}
+
+// vcRemoveOrder: Delete and eviction of blobs whose directory holds several
+// files (data, ban flag, metadata, size), with a crash before every unlink and
+// every order in which the directory entries may be removed.
+func vcRemoveOrder(excludeB bool) {
+	vcSymbolicUnlinkOrder = true
+	cfg := vcChooseConfig()
+	var prefix []vcOp
+	var last vcOp
+	switch verif.Choice("scenario", 4) {
+	case 0: // delete a complete blob with metadata
+		prefix = []vcOp{{code: vcCreate, k: 0, size: 1, data: verif.Bytes("data0", 1)}, {code: vcMarkComplete, k: 0}, {code: vcSetMd, k: 0, val: true}}
+		last = vcOp{code: vcDelete, k: 0}
+	case 1: // delete a complete, banned blob
+		prefix = []vcOp{{code: vcCreate, k: 0, size: 1, data: verif.Bytes("data0", 1)}, {code: vcMarkComplete, k: 0}, {code: vcBan, k: 0}}
+		last = vcOp{code: vcDelete, k: 0}
+	case 2: // evict a complete blob with metadata by creating another one
+		prefix = []vcOp{{code: vcCreate, k: 0, size: 2, data: verif.Bytes("data0", 2)}, {code: vcMarkComplete, k: 0}, {code: vcSetMd, k: 0, val: false}}
+		last = vcOp{code: vcCreate, k: 1, size: 2, data: verif.Bytes("data1", 2)}
+	case 3: // delete an incomplete blob with metadata
+		prefix = []vcOp{{code: vcCreate, k: 0, size: 1, data: verif.Bytes("data0", 1)}, {code: vcSetMd, k: 0, val: true}}
+		last = vcOp{code: vcDelete, k: 0}
+	}
+	sc := vcExecute(cfg, prefix, last, false)
+	vcExcludeKnown(sc)
+	if excludeB {
+		verif.Assume(!sc.knownFindingB())
+		verif.Note("excluded: crash inside RemoveAll of a complete blob directory (FINDINGS.md F3, VerifFindingCrashHalfRemovedBlobDir)")
+	}
+	sc.check()
+}
+
+// VerifDiskCrashRemoveOrder: the part of vcRemoveOrder that is expected to
+// hold on the current tree.
+func VerifDiskCrashRemoveOrder() { vcRemoveOrder(true) }
+
+// VerifFindingCrashHalfRemovedBlobDir: FINDINGS.md F3. A crash inside the
+// RemoveAll of a complete blob directory after the data file is unlinked and
+// before the directory is empty leaves complete/<key>/ behind; recovery skips
+// it, and the key can never be completed again (rename onto a non-empty
+// directory fails).
+func VerifFindingCrashHalfRemovedBlobDir() { vcRemoveOrder(false) }
+
+// VerifFindingCrashLeavesIncompleteWithoutSize: FINDINGS.md F1/F2. With
+// RebootIncompleteBlobs, a crash inside Create (data file created, _size
+// missing or still empty) or inside Delete of an incomplete blob (_size
+// unlinked, data still there) makes the next start fail (empty _size) or
+// leaves a dropped blob whose data file blocks Create (O_EXCL) for ever.
+func VerifFindingCrashLeavesIncompleteWithoutSize() {
+	cfg := vcConfig{reboot: true, shard: verif.Choice("shard_length", 2)}
+	var prefix []vcOp
+	var last vcOp
+	if verif.Choice("scenario", 2) == 0 {
+		last = vcOp{code: vcCreate, k: 0, size: 1, data: verif.Bytes("data0", 1)}
+	} else {
+		prefix = []vcOp{{code: vcCreate, k: 0, size: 1, data: verif.Bytes("data0", 1)}}
+		last = vcOp{code: vcDelete, k: 0}
+	}
+	sc := vcExecute(cfg, prefix, last, false)
 	sc.check()
 }
